@@ -67,6 +67,29 @@ def fields_py(v):
     return f
 
 
+def dur_py(v):
+    """[neg, months, secs, micros] of a timedelta / Duration, absolute amounts; ok = representable that way (one sign, small)"""
+    out = {"ok": False, "neg": False, "months": 0, "secs": 0, "micros": 0}
+    months, td = 0, None
+    if isinstance(v, Duration):
+        months = int(v.years) * 12 + int(v.months)
+        if v.years != int(v.years) or v.months != int(v.months):
+            return out
+        td = v.tdelta
+    elif isinstance(v, timedelta):
+        td = v
+    else:
+        return out
+    us = (td.days * 86400 + td.seconds) * 1000000 + td.microseconds
+    if (months < 0 and us > 0) or (months > 0 and us < 0):
+        return out
+    neg = months < 0 or us < 0
+    months, us = abs(months), abs(us)
+    if months > 10 ** 6 or us // 1000000 > 2 * 10 ** 9:
+        return out
+    return {"ok": True, "neg": neg, "months": months, "secs": us // 1000000, "micros": us % 1000000}
+
+
 def same_value(a, b):
     if a is None or b is None:
         return a is b
@@ -139,7 +162,7 @@ def replay(cfg, events):
                 l2 = Literal(out, datatype=dt)
                 v0 = l0.value
                 e.update(lex=chars(lex), text=lex, ill=bool(l.ill_typed), hasval=v0 is not None, canon=chars(canon_py(v0, e["dt"])) if v0 is not None else [],
-                         fields=fields_py(v0), out=chars(out), out2=chars(str(l2)), ill_out=bool(l2.ill_typed), same=same_value(v0, l2.value),
+                         fields=fields_py(v0), dur=dur_py(v0), out=chars(out), out2=chars(str(l2)), ill_out=bool(l2.ill_typed), same=same_value(v0, l2.value),
                          value=repr(v0)[:80])
             elif op == "py":
                 v = mk(e)
@@ -159,7 +182,7 @@ def replay(cfg, events):
                 if ty == "str":
                     ok = type(back) is str and back == v and str(l) == v
                 e.update(dt=dts(l.datatype), lex=chars(str(l)), text=str(l), back=bool(ok), ill=bool(l3.ill_typed), canon=chars(canon_py(v, dts(l.datatype))),
-                         fields=fields_py(v), args=repr(e["args"])[:80])
+                         fields=fields_py(v), dur=dur_py(v), args=repr(e["args"])[:80])
             elif op == "eq":
                 la = Literal(e["a"]["lex"], datatype=URIRef(XSD + e["a"]["dt"]), normalize=False)
                 lb = Literal(e["b"]["lex"], datatype=URIRef(XSD + e["b"]["dt"]), normalize=False)
